@@ -30,6 +30,10 @@ pub struct Params {
     /// > 0: the transport holds 10 bytes and the peer takes them once every this many seconds of virtual time
     /// (40 rounds, then everything): every write is cut in mid-frame by long stalls
     pub stall_s: u64,
+    /// Some(k): the transport holds 16 bytes (writes complete partially) and its k-th write call returns
+    /// ErrorKind::Interrupted once. The session may end because of it; whatever reached the transport must be whole
+    /// frames, each task's in its order, with at most ONE torn frame — at the very end
+    pub interrupt_call: Option<usize>,
 }
 
 #[derive(Clone, Debug, PartialEq)]
@@ -47,8 +51,11 @@ pub fn make(p: Params) -> crate::ctl::ScenarioFn {
             let scenario_start = tokio::time::Instant::now();
             let link = peer_link(
                 PipeCfg::new("s2c"),
-                if p.stall_s > 0 { PipeCfg::new("c2s").menus(false, p.write_menu).capacity(10) } else { PipeCfg::new("c2s").menus(false, p.write_menu) },
+                if p.stall_s > 0 { PipeCfg::new("c2s").menus(false, p.write_menu).capacity(10) } else if p.interrupt_call.is_some() { PipeCfg::new("c2s").menus(false, p.write_menu).capacity(16) } else { PipeCfg::new("c2s").menus(false, p.write_menu) },
             );
+            if let Some(k) = p.interrupt_call {
+                link.peer.out.set_write_interrupt_call(k);
+            }
             let wire = link.peer.out.clone();
             let sess = match start_client_session(
                 link.sess_r,
@@ -197,13 +204,16 @@ pub fn make(p: Params) -> crate::ctl::ScenarioFn {
                 leftover,
                 errs.lock().unwrap()
             );
-            if !errs.lock().unwrap().is_empty() {
+            let faulty = p.interrupt_call.is_some();
+            if !faulty && !errs.lock().unwrap().is_empty() {
                 out.viol(
                     "C11:write-failed-on-healthy-transport",
                     format!("{:?}", errs.lock().unwrap()),
                 );
             }
-            if leftover != 0 {
+            // (after an injected fault one torn frame may end the wire: `parse_all` stops at it, and any frame written
+            // BEHIND a torn one shows as garbage commands or as frames nobody submitted)
+            if leftover != 0 && (!faulty || frames.iter().any(|f| f.cmd > SERVER_SETTINGS)) {
                 out.viol(
                     "C11:wire-not-whole-frames",
                     format!("{} trailing bytes do not form a frame; frames: {}", leftover, fmt_frames(&frames)),
@@ -217,17 +227,17 @@ pub fn make(p: Params) -> crate::ctl::ScenarioFn {
                     );
                 }
             }
-            if real.first().map(|f| f.cmd) != Some(SETTINGS) {
+            if real.first().map(|f| f.cmd) != Some(SETTINGS) && !(faulty && real.is_empty()) {
                 out.viol(
                     "C11:settings-not-first",
                     format!("first frame on the wire is not the settings frame: {}", fmt_frames(&real)),
                 );
             }
-            if real.iter().filter(|f| f.cmd == SETTINGS).count() != 1 {
+            if real.iter().filter(|f| f.cmd == SETTINGS).count() != 1 && !(faulty && real.is_empty()) {
                 out.viol("C11:settings-count", format!("wire: {}", fmt_frames(&real)));
             }
             let logs = logs.lock().unwrap();
-            let mut accounted = 1usize; // settings
+            let mut accounted = if faulty { real.iter().filter(|f| f.cmd == SETTINGS).count().min(1) } else { 1usize }; // settings
             for (t, log) in logs.iter().enumerate() {
                 if log.is_empty() {
                     continue;
@@ -254,6 +264,11 @@ pub fn make(p: Params) -> crate::ctl::ScenarioFn {
                 // (runs of data frames of one stream merged) instead of frame by frame
                 let (on_wire, log_owned) = if p.big_first_chunk { (merge_runs(&on_wire), merge_runs(log)) } else { (on_wire, log.clone()) };
                 let log = &log_owned;
+                // after an injected fault the session may have ended: what is on the wire is a prefix of what the task
+                // submitted (buffered or queued frames may never have been written)
+                if faulty && log.starts_with(&on_wire) {
+                    continue;
+                }
                 if on_wire != *log {
                     // classify
                     let mut sorted_w: Vec<String> = on_wire.iter().map(|s| format!("{s:?}")).collect();
@@ -339,7 +354,7 @@ fn short(v: &[Sub]) -> Vec<String> {
 
 pub fn params_json(p: &Params) -> serde_json::Value {
     json!({"scheme": p.scheme_name, "openers": p.openers, "forwarder_of": if p.forwarder_of==usize::MAX {-1} else {p.forwarder_of as i64},
-           "heartbeat_writer": p.heartbeat_writer, "pre_packets": p.pre_packets, "write_menu": p.write_menu, "chunks": p.chunks, "big_first_chunk": p.big_first_chunk, "stall_s": p.stall_s})
+           "heartbeat_writer": p.heartbeat_writer, "pre_packets": p.pre_packets, "write_menu": p.write_menu, "chunks": p.chunks, "big_first_chunk": p.big_first_chunk, "stall_s": p.stall_s, "interrupted_write_call": p.interrupt_call})
 }
 
 pub fn all_params(tier: Tier) -> Vec<(Params, usize)> {
@@ -371,13 +386,14 @@ pub fn all_params(tier: Tier) -> Vec<(Params, usize)> {
                         chunks: 2,
                         big_first_chunk: false,
                         stall_s: 0,
+                        interrupt_call: None,
                     },
                     if tier.is_thorough() { bt } else { bq },
                 ));
                 // the same race with a first chunk that needs several frames (direct writers and the forwarding task)
                 if !hb && !wm && pre == 0 && scheme_name != "tiny" {
                     v.push((
-                        Params { scheme, scheme_name, openers: 2, forwarder_of: fw, heartbeat_writer: false, pre_packets: 0, write_menu: false, chunks: 2, big_first_chunk: true, stall_s: 0 },
+                        Params { scheme, scheme_name, openers: 2, forwarder_of: fw, heartbeat_writer: false, pre_packets: 0, write_menu: false, chunks: 2, big_first_chunk: true, stall_s: 0, interrupt_call: None },
                         if tier.is_thorough() { 2 } else { 1 },
                     ));
                 }
@@ -499,8 +515,21 @@ pub fn stall_params(tier: Tier) -> Vec<(Params, usize)> {
                     if !tier.is_thorough() && scheme_name == "default" && stall_s != 61 {
                         continue;
                     }
-                    v.push((Params { scheme, scheme_name, openers: 2, forwarder_of: fw, heartbeat_writer: hb, pre_packets: 0, write_menu: false, chunks: 2, big_first_chunk: false, stall_s }, if tier.is_thorough() { 1 } else { 0 }));
+                    v.push((Params { scheme, scheme_name, openers: 2, forwarder_of: fw, heartbeat_writer: hb, pre_packets: 0, write_menu: false, chunks: 2, big_first_chunk: false, stall_s, interrupt_call: None }, if tier.is_thorough() { 1 } else { 0 }));
                 }
+            }
+        }
+    }
+    v
+}
+
+/// One write call returns Interrupted (narrow transport, partial writes) while several tasks write.
+pub fn interrupt_params(tier: Tier) -> Vec<(Params, usize)> {
+    let mut v = vec![];
+    for (scheme, scheme_name) in [(STOP0, "stop0"), (TINY, "tiny")] {
+        for fw in [usize::MAX, 1] {
+            for k in 0..(if tier.is_thorough() { 24 } else { 14 }) {
+                v.push((Params { scheme, scheme_name, openers: 2, forwarder_of: fw, heartbeat_writer: true, pre_packets: 0, write_menu: false, chunks: 2, big_first_chunk: false, stall_s: 0, interrupt_call: Some(k) }, if tier.is_thorough() { 1 } else { 0 }));
             }
         }
     }
@@ -680,6 +709,7 @@ pub fn items(tier: Tier) -> Vec<DxItem> {
     all_params(tier)
         .into_iter()
         .chain(stall_params(tier))
+        .chain(interrupt_params(tier))
         .map(|(p, b)| {
             let mut it = DxItem::new(params_json(&p), make(p), b);
             // "everyone else runs to completion first" as one deviation
